@@ -83,15 +83,19 @@ def matrix():
     return cells
 
 
-def _derived_table(g, name, how):
+def _derived_table(g, name, how, keycol=None):
     """A copy of table `name` whose key column has a duplicate / a missing
     value; registered in the case, not offered to valid ops."""
     rng = g.rng
-    dname = '%s__%s' % (name, how)
+    meta = dict([m for m in g.tables if m['name'] == name][0])
+    if keycol is not None and keycol != meta['key'] and \
+            keycol in g.case['tables'][name]['columns']:
+        meta['key'] = keycol
+        meta['keytype'] = meta.get('key2type', 'int')
+    dname = '%s__%s_%s' % (name, how, meta['key'])
     if dname in g.case['tables']:
         return dname
     spec = copy.deepcopy(g.case['tables'][name])
-    meta = [m for m in g.tables if m['name'] == name][0]
     ki = spec['columns'].index(meta['key'])
     while len(spec['rows']) < 2:
         row = []
@@ -100,6 +104,10 @@ def _derived_table(g, name, how):
             if c == meta['key']:
                 row.append(900 + len(spec['rows']) if meta['keytype'] == 'int'
                            else 'q%d' % len(spec['rows']))
+            elif c in ('code', 'k', 'id') and dt in ('int64', 'object',
+                                                     'str', 'string'):
+                row.append(7700 + len(spec['rows']) if dt == 'int64'
+                           else 'qq%d' % len(spec['rows']))
             elif dt in ('object', 'str'):
                 row.append('ab')
             elif dt == 'int64':
@@ -185,7 +193,8 @@ def corrupt(g, base, corr):
         side = corr[0]
         if not isinstance(op[side], str):
             return None
-        op[side] = _derived_table(g, op[side], corr[-3:])
+        op[side] = _derived_table(g, op[side], corr[-3:],
+                                  op.get(side + '_key'))
         if op.get('l') == op.get('r') and False:
             return None
     elif corr == 'c_l_unknown':
@@ -288,9 +297,21 @@ def gen_reject_cell(g, cell):
     bad = corrupt(g, base, corr)
     if bad is None:
         return None
+    if bad['op'] in ('filter_candset', 'apply_matcher') and \
+            isinstance(bad.get('candset'), str) and \
+            bad['candset'] in g.case['candsets'] and g.rng.random() < 0.25:
+        # the documented checks do not depend on the candidate set having rows
+        cs = copy.deepcopy(g.case['candsets'][bad['candset']])
+        for fld in ('pairs', 'ids', 'index'):
+            cs[fld] = []
+        for k2 in (cs.get('extra') or {}):
+            cs['extra'][k2] = []
+        name = 'S%d' % len(g.candsets)
+        g.case['candsets'][name] = cs
+        g.candsets.append(name)
+        bad['candset'] = name
     if corr.endswith('_inplace'):
         # the valid twin of the call first, on the very same objects
-        import copy
         first = copy.deepcopy(base)
         for k in ('variants', 'twin', 'fault'):
             first.pop(k, None)
